@@ -5,8 +5,15 @@ import (
 	"strings"
 
 	"github.com/streamingfast/dstore"
+	"github.com/streamingfast/substreams"
+	"github.com/streamingfast/substreams/block"
 	"github.com/streamingfast/substreams/manifest"
+	orchexecout "github.com/streamingfast/substreams/orchestrator/execout"
+	"github.com/streamingfast/substreams/orchestrator/response"
+	pbsubstreamsrpc "github.com/streamingfast/substreams/pb/sf/substreams/rpc/v2"
 	pbsubstreams "github.com/streamingfast/substreams/pb/sf/substreams/v1"
+	"github.com/streamingfast/substreams/pipeline/exec"
+	"github.com/streamingfast/substreams/storage/execout"
 	pboutput "github.com/streamingfast/substreams/storage/execout/pb"
 	"github.com/streamingfast/substreams/storage/store"
 	sym "github.com/streamingfast/substreams/zz_verifsym"
@@ -225,6 +232,15 @@ func VerifC01Staged() {
 	}
 	want := c01Reference(fake, total)
 
+	// the client's request starts at any block of the range (DELIVER=1)
+	// and stops at any later block (the files are written for whole segments; the range read
+	// from them ends at the request's stop block)
+	reqStart, reqStop := uint64(0), total
+	if sym.Param("DELIVER", 0) == 1 {
+		reqStart = uint64(sym.Choice("request-start", int(total)))
+		reqStop = reqStart + 1 + uint64(sym.Choice("request-length", int(total-reqStart)))
+	}
+
 	defer sym.RemoveURLStores()
 	files, url := sym.NewURLStore("cache")
 	pass := func(tag string) bool {
@@ -255,6 +271,9 @@ func VerifC01Staged() {
 			if !c01CheckSegment(files, seg, segSize, want) {
 				return false
 			}
+		}
+		if sym.Param("DELIVER", 0) == 1 && !c01Deliver(url, fake.graph, segSize, reqStart, reqStop, total, want) {
+			return false
 		}
 		sym.Reach(tag)
 		return true
@@ -331,5 +350,69 @@ func c01CheckSegment(files *sym.MemStore, seg, segSize uint64, want [][]byte) bo
 		}
 	}
 	sym.Assert(n == len(m.Kv), "no-output-outside-the-segment")
+	return true
+}
+
+// c01Deliver streams the output module's cached files to a client the way tier1 does for the
+// back-filled part of a production-mode request (orchestrator.BuildParallelProcessor sets the
+// walker up; Scheduler.Update drives it on MsgDownloadSegment / MsgFileDownloaded): the real
+// execout Walker over the real FileWalker, from the request's start block, and checks the
+// sequence of (block number, block id, payload) the response function receives against the
+// sequential reference.
+func c01Deliver(url string, graph int, segSize, start, stop, total uint64, want [][]byte) bool {
+	st, err := dstore.NewStore(url, "zst", "zstd", false)
+	if err != nil {
+		return false
+	}
+	sub, err := st.SubStore("tag")
+	if err != nil {
+		return false
+	}
+	g, err := exec.NewOutputModuleGraph("out", true, c07Modules(graph), 0)
+	if err != nil {
+		return false
+	}
+	cfgs, err := execout.NewConfigs(sub, g.UsedModules(), g.ModuleHashes(), segSize, 0, zap.NewNop())
+	if err != nil {
+		return false
+	}
+	var got []*pbsubstreamsrpc.BlockScopedData
+	resp := func(r substreams.ResponseFromAnyTier) error {
+		if m, ok := r.(*pbsubstreamsrpc.Response); ok {
+			if d := m.GetBlockScopedData(); d != nil {
+				got = append(got, d)
+			}
+		}
+		return nil
+	}
+	// plan.RequestPlan.ReadOutSegmenter: segments from the write range's start (the segment
+	// boundary at or below the request's start) to the end of the back-filled range
+	fw := cfgs.NewFileWalker("out", block.NewSegmenter(segSize, start-start%segSize, total))
+	w := orchexecout.NewWalker(context.Background(), g.OutputModule(), fw, block.NewRange(start, stop), response.New(resp))
+	for steps := uint64(0); !w.IsCompleted(); steps++ {
+		if steps > total {
+			sym.Unreachable("walker-terminates")
+			return false
+		}
+		switch w.CmdDownloadCurrentSegment(0)().(type) {
+		case orchexecout.MsgFileDownloaded:
+			w.NextSegment()
+		default:
+			sym.Unreachable("every-segment-file-is-there-and-loads")
+			return false
+		}
+	}
+	sym.Assert(uint64(len(got)) == stop-start, "client-receives-every-block-of-the-range-once")
+	for i, d := range got {
+		b := start + uint64(i)
+		if b >= stop {
+			break
+		}
+		sym.Assert(d.Clock.Number == b, "client-receives-blocks-in-order")
+		sym.Assert(d.Clock.Id == c07ID(b), "client-receives-the-blocks-id")
+		sym.Assert(d.Output.Name == "out", "client-receives-the-output-module")
+		sym.Assert(sym.EqBytes(d.Output.MapOutput.Value, want[b]), "client-receives-the-payload-of-a-sequential-execution")
+	}
+	sym.Reach("delivered")
 	return true
 }
